@@ -30,6 +30,24 @@ class ClassVal:
         self.qualname = "%s:%s" % (module.name if module else "builtins", name)
 
     def mro(self):
+        bases = [b for b in self.bases if isinstance(b, ClassVal)]
+        if len(bases) == 1:
+            return [self] + bases[0].mro()
+        if len(bases) > 1:
+            # C3 linearisation (python's own rule)
+            seqs = [b.mro() for b in bases] + [list(bases)]
+            out = [self]
+            while any(seqs):
+                for s in seqs:
+                    if s and not any(s[0] in t[1:] for t in seqs):
+                        head = s[0]
+                        break
+                else:
+                    break                   # inconsistent hierarchy (python refuses it): fall back to first-come order
+                out.append(head)
+                seqs = [[c for c in t if c is not head] for t in seqs]
+            if not any(seqs):
+                return out
         out = [self]
         for b in self.bases:
             if isinstance(b, ClassVal):
@@ -207,3 +225,65 @@ class PyRaise(Exception):
         if isinstance(self.exc, Instance) and self.exc.args:
             a = "(%s)" % ", ".join(repr(x)[:80] for x in self.exc.args)
         return "%s%s at %s" % (n, a, self.where)
+
+
+# ----------------------------------------------------------------------
+# values of the standard-library models (stdlib_model.py)
+# ----------------------------------------------------------------------
+class TruncList(list):
+    """the first items of an iterator that never ends (itertools.count, repeat): a consumer that reaches the end of
+    these has left what the model covers -- it refuses (AnalysisError) rather than pretend the iterator stopped"""
+
+
+class CountVal:
+    def __init__(self, start=0, step=1):
+        self.start = start
+        self.step = step
+
+
+class NTuple(tuple):
+    """an instance of a typing.NamedTuple / collections.namedtuple class: a tuple that also answers to field names"""
+
+    def __new__(cls, items, ntcls):
+        t = super().__new__(cls, items)
+        t.ntcls = ntcls
+        return t
+
+
+class IntEnumMember(int):
+    """a member of an enum.IntEnum class: an int that carries its name and class"""
+
+    def __new__(cls, value, name, ecls):
+        m = super().__new__(cls, value)
+        m.ename = name
+        m.ecls = ecls
+        return m
+
+    def __repr__(self):
+        return "<%s.%s: %d>" % (self.ecls.name, self.ename, int(self))
+
+    def __str__(self):
+        return int.__repr__(self)           # python 3.11+: str() of an IntEnum member is the number
+
+
+class EnumMember:
+    """a member of a plain enum.Enum class: equal to itself only"""
+
+    def __init__(self, value, name, ecls):
+        self.evalue = value
+        self.ename = name
+        self.ecls = ecls
+
+    def __repr__(self):
+        return "<%s.%s: %r>" % (self.ecls.name, self.ename, self.evalue)
+
+
+class PartialVal:
+    def __init__(self, fn, args, kwargs):
+        self.fn = fn
+        self.args = list(args)
+        self.kwargs = dict(kwargs)
+
+
+class AutoVal:
+    """enum.auto()"""
